@@ -7,6 +7,7 @@ pub const PRELUDE: &str = include_str!("../prelude.js");
 pub mod c01;
 pub mod c02;
 pub mod c11;
+pub mod c12;
 pub mod c13;
 pub mod c14;
 pub mod c15;
@@ -17,6 +18,7 @@ pub fn lookup(id: &str) -> Option<Box<dyn Check>> {
         "C01" => Some(Box::new(c01::C01)),
         "C02" => Some(Box::new(c02::C02)),
         "C11" => Some(Box::new(c11::C11)),
+        "C12" => Some(Box::new(c12::C12)),
         "C13" => Some(Box::new(c13::C13)),
         "C14" => Some(Box::new(c14::C14)),
         "C15" => Some(Box::new(c15::C15)),
